@@ -199,6 +199,30 @@ def lens_dict_oracle(rng):
     b = float(np.squeeze(lens.lens_log_likelihood(cosmo, **h)))
     if a != b and not (math.isnan(a) and math.isnan(b)):
         fails.append("lens_log_likelihood not reproducible from the seed: %r vs %r (%s)" % (a, b, lt))
+    # an evaluation that does not complete (a population mean outside the interpolation grid raises ValueError) leaves
+    # the caller's dictionaries as they were, too — and the next evaluation with them gives the value of a fresh call
+    if "a_ani" in (cfg.get("kin_scaling_param_list") or []) and lt in lc.KIN_TYPES:
+        h2 = copy.deepcopy(h)
+        kk = dict(h2["kwargs_kin"])
+        h2["kwargs_kin"] = dict([("sigma_v_sys_error", kk.pop("sigma_v_sys_error", 0.05))] + list(kk.items()))
+        good = copy.deepcopy(h2)
+        h2["kwargs_kin"]["a_ani"] = 50.0
+        snap2 = snapshot(h2)
+        try:
+            np.random.seed(1)
+            lens.lens_log_likelihood(cosmo, **h2)
+        except Exception:  # noqa
+            pass
+        if snapshot(h2) != snap2:
+            fails.append("lens_log_likelihood modified the caller's hyper-parameter dictionaries during an evaluation that raised (%s): %r"
+                         % (lt, h2["kwargs_kin"]))
+        h2["kwargs_kin"]["a_ani"] = good["kwargs_kin"]["a_ani"]
+        np.random.seed(1)
+        c1 = float(np.squeeze(lens.lens_log_likelihood(cosmo, **h2)))
+        np.random.seed(1)
+        c2 = float(np.squeeze(lc.make_lens(lt, cfg, data).lens_log_likelihood(cosmo, **good)))
+        if c1 != c2 and not (math.isnan(c1) and math.isnan(c2)):
+            fails.append("the dictionaries of an evaluation that raised, used again, give %r; fresh dictionaries on a fresh object give %r (%s)" % (c1, c2, lt))
     for how, lens2 in (("pickled", pickle.loads(pickle.dumps(lens))), ("deep-copied", copy.deepcopy(lens))):
         for rep in range(2):     # the copy must follow the global seed, repeatedly
             np.random.seed(1)
